@@ -12,8 +12,9 @@
 (*    reconciliation are on their way (kill), while the answer to a         *)
 (*    RECONCILE call is on its way (drop: the answer is lost);              *)
 (*  - one KILL call of a reconciliation round may be refused by the master *)
-(*    (lost); the disconnection that is then due comes once the round is   *)
-(*    over;                                                                 *)
+(*    or accepted and lost; the disconnection that is then due comes once  *)
+(*    the round is over - after a lost one possibly only after further     *)
+(*    requests of the driver (an environment deployed in between);         *)
 (*  - while a teardown is held at its KILL calls (or parked between the    *)
 (*    read and the write-back of the roster) the driver may create another *)
 (*    environment; the teardown goes on when that request is over.         *)
@@ -26,17 +27,20 @@ EXTENDS Restart
 CONSTANTS FaultStarts, FaultGaps
 VARIABLES tick, fstart, whole,  \* whole: no update of the last RECONCILE answer has been delivered yet
           flav,                 \* how the last lost KILL call was lost: "" | "lost" | "refused" | "refusedmany" (others alive)
-          ovl                   \* 0 | 1: a deployment wrote the roster while a teardown was held | 2: ... and the stream
+          ovl,                  \* 0 | 1: a deployment wrote the roster while a teardown was held | 2: ... and the stream
                                 \* was dropped after that teardown was over
-gvars == <<vars, tick, fstart, whole, flav, ovl>>
-Keep == flav' = flav /\ ovl' = ovl
+          owdep                 \* the stream was dropped while a KILL was lost AND an environment had been deployed since
+gvars == <<vars, tick, fstart, whole, flav, ovl, owdep>>
+Keep == flav' = flav /\ ovl' = ovl /\ owdep' = owdep
 Tk == tick' = tick + 1 /\ fstart' = fstart /\ whole' = whole /\ Keep
 TkW(b) == tick' = tick + 1 /\ fstart' = fstart /\ whole' = b /\ Keep
 TkF == tick' = tick + 1 /\ fstart' \in {tick + g : g \in FaultGaps} /\ whole' = whole
 
 Quiet == up /\ conn = "up" /\ rq = {} /\ rcv = {} /\ kq = {}
 NoneTransient == \A e \in Envs : env[e] \notin Transient
-DriverFree == Quiet /\ NoneTransient /\ ~owed
+\* (a KILL accepted and lost is noticed by nobody: the driver goes on, the disconnection that is due comes when it likes;
+\* after a refused one the core's HTTP client re-subscribes by itself within a second: the driver waits for that)
+DriverFree == Quiet /\ NoneTransient /\ (~owed \/ flav = "lost")
 \* a teardown held by the driver, nothing else going on
 TeardownHeld == \E e \in Envs : env[e] \in {"rewriting", "killing"} /\ \A o \in Envs \ {e} : env[o] \notin Transient
 OthersDone(e) == \A o \in Envs \ {e} : env[o] \notin Transient
@@ -61,7 +65,7 @@ G_Reconcile == Reconcile /\ TkW(TRUE)
 G_ReconcileUpdate(t) == ReconcileUpdate(t) /\ TkW(FALSE)
 G_KillOnReconcile(t) == KillOnReconcile(t) /\ Tk
 G_KillArrives(t) == KillArrives(t) /\ Tk
-TkL(f) == tick' = tick + 1 /\ fstart' = fstart /\ whole' = whole /\ flav' = f /\ ovl' = ovl
+TkL(f) == tick' = tick + 1 /\ fstart' = fstart /\ whole' = whole /\ flav' = f /\ ovl' = ovl /\ owdep' = owdep
 G_KillLost(t) == NoneTransient /\ ~owed /\ KillLost(t) /\ TkL("lost")
 G_KillRefused(t) ==
   /\ NoneTransient /\ ~owed /\ KillRefused(t)
@@ -75,7 +79,7 @@ G_Lock(e) == Lock(e) /\ Tk
 Settled == rq = {} /\ rcv = {}
 G_RosterAppend(e) ==
   /\ (conn # "up" \/ Settled) /\ RosterAppend(e)
-  /\ tick' = tick + 1 /\ fstart' = fstart /\ whole' = whole /\ flav' = flav
+  /\ tick' = tick + 1 /\ fstart' = fstart /\ whole' = whole /\ flav' = flav /\ owdep' = owdep
   /\ ovl' = IF \E o \in Envs \ {e} : env[o] \in {"rewriting", "killing"} THEN 1 ELSE ovl
 \* the agent's report is held back until the roster is written and the event stream can carry it (a report
 \* sent while the stream is down is lost; Restart does not model what the core has learned), or the core is gone
@@ -94,13 +98,14 @@ G_EnvError(e) == EnvError(e) /\ Tk
 \* kill: recovery settled, or while the KILL calls of a reconciliation are being sent
 G_Crash ==
   /\ tick >= fstart /\ up /\ conn = "up" /\ rq = {} /\ FaultEnvOK("crash") /\ ((rcv = {} /\ kq = {}) \/ NoneTransient) /\ Something
-  /\ Crash /\ TkF /\ flav' = flav /\ ovl' = 0
+  /\ Crash /\ TkF /\ flav' = flav /\ ovl' = 0 /\ owdep' = FALSE
 \* drop: recovery settled, or while the whole answer to a RECONCILE call is still on its way (it is lost)
 AnswerPending == rq # {} /\ whole /\ NoneTransient
 G_DropConnection ==
   /\ (tick >= fstart \/ owed) /\ up /\ conn = "up" /\ rcv = {} /\ kq = {} /\ (rq = {} \/ (AnswerPending /\ ~owed))
   /\ FaultEnvOK("drop") /\ Something
   /\ DropConnection /\ TkF /\ flav' = flav /\ ovl' = (IF ovl = 1 /\ NoneTransient THEN 2 ELSE ovl)
+  /\ owdep' = (owdep \/ (owed /\ \E e \in Envs : env[e] \in {"configured", "running"}))
 
 GenNext ==
   \/ G_CoreStart \/ G_Subscribe \/ G_Resubscribe \/ (\E id \in 1..(MaxCrash + 2) : G_Subscribed(id)) \/ G_StoreFid \/ G_Reconcile
@@ -111,7 +116,7 @@ GenNext ==
                      \/ G_Release(e) \/ G_RosterRemove(e) \/ G_RosterRead(e) \/ G_RosterWrite(e) \/ G_KillSend(e) \/ G_EnvError(e)
   \/ G_Crash \/ G_DropConnection
 
-GenInit == Init /\ tick = 0 /\ fstart \in FaultStarts /\ whole = FALSE /\ flav = "" /\ ovl = 0
+GenInit == Init /\ tick = 0 /\ fstart \in FaultStarts /\ whole = FALSE /\ flav = "" /\ ovl = 0 /\ owdep = FALSE
 GenSpec == GenInit /\ [][GenNext]_gvars
 TickBound == tick < 48
 
@@ -122,6 +127,9 @@ Recovered == Quiet /\ ~owed /\ nsubl >= 2 /\ NoneTransient
 ProbeLostKill == ~(flav = "lost" /\ life >= 2 /\ Recovered /\ AllDead)
 \* the same with a KILL refused while other leftovers keep the core talking to the master
 ProbeRefusedKill == ~(flav = "refusedmany" /\ life >= 2 /\ Recovered /\ AllDead)
+\* leftovers, a KILL accepted and lost, an environment deployed by the new life, only then the reconnection: the
+\* leftover is reported again (the reconciliation is about all the tasks of the framework, not about the roster) and killed
+ProbeLostKillDeployed == ~(owdep /\ life >= 2 /\ Recovered /\ \A t \in Tasks : Alive(t) => Owned(t))
 \* a deployment completed while a teardown was held, that teardown over, then a reconnection
 ProbeOverlap == ~(ovl = 2 /\ Recovered /\ \E e \in Envs : env[e] = "configured")
 =============================================================================
